@@ -8,15 +8,20 @@
 //   => contract of transform on the two real tables: transform(b, &ENC_TABLE) = L(S(b)), transform(b, &DEC_TABLE) =
 //      L^-1(S^-1(b)); every caller below is proved against that contract (`spec_transform`, chosen by table identity).
 //
-// STATUS (end of round, 2026-10-04): discharged: c_sub_bytes, c_inv_enc_keys (quick), c_enc_block, c_dec_block,
-// c_transform_enc_3 (thorough).  `transform` itself is only covered at ONE byte position of ONE table (bounded);
-// c_expand_enc_keys timed out and is NOT registered.
+// Composition obligations (c_expand_enc_keys, c_enc_block, c_dec_block, p_enc_par) replace `transform` and `sub_bytes` by
+// the tagged transcript oracle lemmas.rs `tro` on the real side and the corresponding reference functions by the same
+// oracle on the reference side (linear in the number of calls).
+// OPEN: `transform` itself is only covered at ONE byte position of ONE table (c_transform_enc_3, bounded).  Also tried:
+// `transform(b, t)` for a fully symbolic block against a table reference that points into a plain nondeterministic
+// `[u8; 65536]` local (no `Align16` struct object, so that CBMC's array theory could be used): out of memory after 200 s
+// (the reinterpretation as `[[u128; 256]; 16]` is lowered to a 4096-element array expression per read).
 // @module file=kuznyechik/src/big_soft/backends.rs
 // @config name=soft rustflags='--cfg kuznyechik_backend="soft"'
 use super::*;
 use crate::fused_tables::__vp_fused_tables::entry;
 use bcref::kuznyechik as kz;
 use crate::__vp_lemmas::ruf;
+use crate::__vp_lemmas::tro;
 use crate::__vp_lemmas::{spec_dec_dk, spec_inv_keys};
 
 pub fn bytes(x: u128) -> [u8; 16] { x.to_le_bytes() }
@@ -62,6 +67,51 @@ macro_rules! transform_at { ($name:ident, $table:ident, $i:expr) => {
 // @ob name=c_transform_enc_3 tier=thorough cfg=soft props=C07,C20 kind=bounded bound="block = unit_3(v), v symbolic" fn=kuznyechik::big_soft::backends::transform timeout=3600
 transform_at!(c_transform_enc_3, ENC_TABLE, 3);
 
+// `transform` for EVERY table content and every block, in two steps:
+//  (A) c_transform_words: transform(b, t) = XOR_i W[i][b_i] where W is the table's storage read as [[u128; 256]; 16] (as
+//      `transform` itself reads it).  The table reference points into a nondeterministic object of that word type, so that
+//      the sixteen symbolic reads are plain array reads (array theory) - a `Table` object proper (a struct around
+//      [u8; 65536]) is flattened by CBMC into one bit-vector and every symbolic-offset read then exhausts memory.
+//      `transform` only sees a `&Table`; Rust memory is untyped, so "every content of the 65536 bytes" is covered.
+//  (B) c_view_enc / c_view_dec (exhaustive, concrete): for the two real tables, W[i][v] is the little-endian word of
+//      entry (i, v) = the 16 bytes at offset 16 * (256 * i + v), for every i, v.
+pub type Words = [[u128; 256]; 16];
+pub fn words_of(t: &Table) -> &Words { unsafe { &*(t.0.as_ptr().cast()) } }
+#[kani::proof]
+#[kani::unwind(17)]
+fn c_transform_words() {
+    let raw: Words = kani::any();
+    let t: &Table = unsafe { &*(raw.as_ptr() as *const Table) };
+    let b: u128 = kani::any();
+    let bb = bytes(b);
+    let mut acc = 0u128;
+    let mut i = 0;
+    while i < 16 {
+        acc ^= raw[i][bb[i] as usize];
+        i += 1;
+    }
+    assert!(transform(b, t) == acc);
+    assert!(core::mem::size_of::<Words>() == core::mem::size_of::<Table>());
+}
+macro_rules! view_eq { ($name:ident, $table:ident) => {
+    #[kani::proof]
+    #[kani::unwind(257)]
+    fn $name() {
+        let w = words_of(&$table);
+        let mut i = 0;
+        while i < 16 {
+            let mut v = 0;
+            while v < 256 {
+                assert!(w[i][v] == word(&entry(&$table, i, v as u8)));
+                v += 1;
+            }
+            i += 1;
+        }
+    }
+}; }
+view_eq!(c_view_enc, ENC_TABLE);
+view_eq!(c_view_dec, DEC_TABLE);
+
 // @ob name=c_sub_bytes cfg=soft props=C07,C20 fn=kuznyechik::big_soft::backends::sub_bytes timeout=300
 #[kani::proof]
 #[kani::unwind(17)]
@@ -90,17 +140,40 @@ pub fn raw_keys(k: &RoundKeys) -> [[u8; 16]; 10] {
     out
 }
 
-// NOT REGISTERED (timeout 900 s in the final run under machine load ~25; to be redone with the transcript oracle as compact.c_f): ob name=c_expand_enc_keys cfg=soft props=C07,C20 fn=kuznyechik::big_soft::backends::expand_enc_keys uses=c_transform,c_enc_table_lo,c_enc_table_hi,c_ls_table,l_l_decomp,c_keygen,c_cref_lo,c_cref_hi timeout=900
+// ---- transcript-oracle stand-ins with the real signatures (see lemmas.rs `tro`): `transform` on the two real tables is
+// LS = L o S resp. LISI = L^-1 o S^-1 of its argument (contract `spec_transform`), `sub_bytes` on the two real S-boxes is
+// S resp. S^-1 (c_sub_bytes)
+pub fn tr_transform(block: u128, table: &Table) -> u128 {
+    if core::ptr::eq(table, &ENC_TABLE) {
+        tro::ask(tro::LS, block)
+    } else {
+        assert!(core::ptr::eq(table, &DEC_TABLE)); // no other table exists in the crate
+        tro::ask(tro::LISI, block)
+    }
+}
+pub fn tr_sub_bytes(block: u128, sbox: &[u8; 256]) -> u128 {
+    if core::ptr::eq(sbox, &P) {
+        tro::ask(tro::S, block)
+    } else {
+        assert!(core::ptr::eq(sbox, &P_INV)); // no other S-box exists in the crate
+        tro::ask(tro::SI, block)
+    }
+}
+
+// the 32 constants are read from KEYGEN by the real code and from the checked table CREF by the reference; 32 oracle calls
+// @ob name=c_expand_enc_keys cfg=soft props=C07,C20 fn=kuznyechik::big_soft::backends::expand_enc_keys uses=c_transform_enc_3,c_enc_table_lo,c_enc_table_hi,c_ls_table,l_l_decomp,c_keygen,c_cref_lo,c_cref_hi timeout=600
 #[kani::proof]
-#[kani::stub(transform, spec_transform)]
-#[kani::stub(bcref::kuznyechik::l, ruf::l)]
-#[kani::stub(bcref::kuznyechik::l_inv, ruf::l_inv)]
+#[kani::stub(transform, tr_transform)]
+#[kani::stub(bcref::kuznyechik::lsx, tro::lsx)]
 #[kani::stub(bcref::kuznyechik::c, crate::utils::__vp_utils::cref_lookup)]
-#[kani::unwind(151)]
+#[kani::unwind(33)]
 fn c_expand_enc_keys() {
     let key: [u8; 32] = kani::any();
     let rk = expand_enc_keys(&cipher::Array(key));
+    assert!(tro::recorded() == 32);
+    tro::start_replay();
     let spec = kz::key_schedule(&key);
+    assert!(tro::all_replayed());
     let mut i = 0;
     while i < 10 {
         assert!(kz::eq(&bytes(rk[i]), &spec[i]));
@@ -140,35 +213,112 @@ pub fn dec_block(rk: &RoundKeys, b: [u8; 16]) -> [u8; 16] {
     out.0
 }
 
-// @ob name=c_enc_block tier=thorough cfg=soft props=C07,C20 fn=kuznyechik::big_soft::backends::EncBackend::encrypt_block uses=c_transform,c_enc_table_lo,c_enc_table_hi,c_ls_table,l_l_decomp timeout=3600
+// for every value of the ten round keys and every block
+// @ob name=c_enc_block cfg=soft props=C07,C20 fn=kuznyechik::big_soft::backends::EncBackend::encrypt_block uses=c_transform_enc_3,c_enc_table_lo,c_enc_table_hi,c_ls_table,l_l_decomp timeout=600
 #[kani::proof]
-#[kani::stub(transform, spec_transform)]
-#[kani::stub(bcref::kuznyechik::l, ruf::l)]
-#[kani::stub(bcref::kuznyechik::l_inv, ruf::l_inv)]
-#[kani::stub(bcref::kuznyechik::c, crate::utils::__vp_utils::cref_lookup)]
-#[kani::unwind(151)]
+#[kani::stub(transform, tr_transform)]
+#[kani::stub(bcref::kuznyechik::lsx, tro::lsx)]
+#[kani::unwind(17)]
 fn c_enc_block() {
     let rk: RoundKeys = kani::any();
     let b: [u8; 16] = kani::any();
-    assert!(kz::eq(&enc_block(&rk, b), &kz::encrypt_with(&raw_keys(&rk), &b)));
+    let real = enc_block(&rk, b);
+    assert!(tro::recorded() == 9);
+    tro::start_replay();
+    let spec = kz::encrypt_with(&raw_keys(&rk), &b);
+    assert!(tro::all_replayed());
+    assert!(kz::eq(&real, &spec));
 }
 
-// for every value of the ten decryption words
-// (with dk = spec_inv_keys(K) this is the standard's D under K: lemmas.l_dec_dk_is_standard)
-// @ob name=c_dec_block tier=thorough cfg=soft props=C07,C20 fn=kuznyechik::big_soft::backends::DecBackend::decrypt_block uses=c_transform,c_dec_table_lo,c_dec_table_hi,c_slinv_table,l_linv_decomp,c_sub_bytes timeout=3600
+// for every value of the ten decryption words (with dk = spec_inv_keys(K) this is the standard's D under K:
+// lemmas.l_dec_dk_is_standard).  The first stage uses S^-1(S(x)) = x (lemmas.l_s_inverse), see `tro::sd_first`.
+// @ob name=c_dec_block cfg=soft props=C07,C20 fn=kuznyechik::big_soft::backends::DecBackend::decrypt_block uses=c_transform_enc_3,c_dec_table_lo,c_dec_table_hi,c_slinv_table,l_linv_decomp,c_sub_bytes,l_s_inverse timeout=600
 #[kani::proof]
-#[kani::stub(transform, spec_transform)]
-#[kani::stub(bcref::kuznyechik::l, ruf::l)]
-#[kani::stub(bcref::kuznyechik::l_inv, ruf::l_inv)]
-#[kani::stub(bcref::kuznyechik::c, crate::utils::__vp_utils::cref_lookup)]
-#[kani::unwind(151)]
+#[kani::stub(transform, tr_transform)]
+#[kani::stub(sub_bytes, tr_sub_bytes)]
+#[kani::stub(crate::__vp_lemmas::sd_first, tro::sd_first)]
+#[kani::stub(crate::__vp_lemmas::sd_round, tro::sd_round)]
+#[kani::stub(crate::__vp_lemmas::sd_last, tro::sd_last)]
+#[kani::unwind(17)]
 fn c_dec_block() {
     let dk: RoundKeys = kani::any();
     let b: [u8; 16] = kani::any();
-    assert!(kz::eq(&dec_block(&dk, b), &spec_dec_dk(&raw_keys(&dk), &b)));
+    let real = dec_block(&dk, b);
+    assert!(tro::recorded() == 11);
+    tro::start_replay();
+    let spec = spec_dec_dk(&raw_keys(&dk), &b);
+    assert!(tro::all_replayed());
+    assert!(kz::eq(&real, &spec));
 }
 
-// ---- uninterpreted stand-ins with the real signatures, for the plumbing obligations in api_soft.rs
+// ---- encrypt_par_blocks (C04; parallel width 3; decryption has width 1 and no parallel function of its own): for every
+// value of the ten round keys and every three blocks, output lane j is what the single-block function returns on input
+// lane j - buffer to buffer (input unchanged, guard blocks around the output untouched) and in place - for EVERY
+// transform (transcript oracle: the three single-block calls are recorded, the parallel function, which interleaves the
+// lanes, must ask exactly the same questions: parallel call p = 3 * round + lane).  The keys are not written.
+pub type Par = ParBlocks<EncBackend<'static>>;
+// @ob name=p_enc_par cfg=soft props=C04,C20 fn=kuznyechik::big_soft::backends::EncBackend::encrypt_par_blocks,kuznyechik::big_soft::backends::EncBackend::encrypt_block uses=c_transform_enc_3 timeout=600
+#[kani::proof]
+#[kani::stub(transform, tr_transform)]
+#[kani::unwind(65)]
+fn p_enc_par() {
+    let rk: RoundKeys = kani::any();
+    let rk0 = rk;
+    let (b0, b1, b2): ([u8; 16], [u8; 16], [u8; 16]) = (kani::any(), kani::any(), kani::any());
+    let inp = [b0, b1, b2];
+    let mut single = [[0u8; 16]; 3];
+    let mut j = 0;
+    while j < 3 {
+        single[j] = enc_block(&rk, inp[j]);
+        j += 1;
+    }
+    assert!(tro::recorded() == 27);
+    let mut p = 0;
+    while p < 27 {
+        tro::sched(p, 9 * (p % 3) + p / 3);
+        p += 1;
+    }
+    // buffer to buffer
+    tro::start_replay();
+    let src: Par = Array([Array(b0), Array(b1), Array(b2)]);
+    let g: [u8; 16] = kani::any();
+    let mut dst = [Array(g); 5];
+    {
+        let out: &mut Par = (&mut dst[1..4]).try_into().unwrap();
+        cipher::BlockCipherEncBackend::encrypt_par_blocks(&EncBackend(&rk), InOut::from((&src, out)));
+    }
+    assert!(tro::all_replayed());
+    assert!(kz::eq(&dst[0].0, &g) && kz::eq(&dst[4].0, &g));
+    let mut j = 0;
+    while j < 3 {
+        assert!(kz::eq(&dst[1 + j].0, &single[j]));
+        assert!(kz::eq(&src.0[j].0, &inp[j]));
+        j += 1;
+    }
+    // in place
+    tro::start_replay();
+    let mut buf = [Array(g), Array(b0), Array(b1), Array(b2), Array(g)];
+    {
+        let io: &mut Par = (&mut buf[1..4]).try_into().unwrap();
+        cipher::BlockCipherEncBackend::encrypt_par_blocks(&EncBackend(&rk), InOut::from(io));
+    }
+    assert!(tro::all_replayed());
+    assert!(kz::eq(&buf[0].0, &g) && kz::eq(&buf[4].0, &g));
+    let mut j = 0;
+    while j < 3 {
+        assert!(kz::eq(&buf[1 + j].0, &single[j]));
+        j += 1;
+    }
+    // keys not written
+    let mut i = 0;
+    while i < 10 {
+        assert!(rk[i] == rk0[i]);
+        i += 1;
+    }
+}
+
+// ---- uninterpreted stand-ins with the real signatures, for the plumbing obligations (C11, C12, C13, C16) in api_soft.rs
+// (uf_transform is no longer used: the C04 obligations now replace the block functions, see api_common.inc)
 include!("@VERIF@/contracts/kuznyechik/uf_common.inc");
 pub fn uf_expand_enc_keys(key: &Key) -> RoundKeys { unsafe { core::mem::transmute(ufs::k2rk(&key.0)) } }
 pub fn uf_inv_enc_keys(enc: &RoundKeys) -> RoundKeys {
